@@ -154,6 +154,13 @@ func checkC04(c *Check) {
 	// the client credentials sent are the ones configured now: the handler works on the shared configuration or its own
 	// per-check clone, never on a memoised copy (C19.R5)
 	handlerConfigOwn(c, "C04.R2", R)
+	// … and a rotated secret reaches them: the secret controller relies on its index, not on the oneof arm that the first
+	// reconcile replaced (C19.R3), and ignores an update only for the enumerated reasons (C19.R1)
+	if c.ID == "C04" {
+		importObls(c, "C19", checkC19, "C04.R2", func(o *Obligation) bool {
+			return strings.HasPrefix(o.Key, "C19.R3/reconcile-does-not-rederive") || strings.HasPrefix(o.Key, "C19.R1/skip-reason") || strings.HasPrefix(o.Key, "C19.R2/value-is-the-datum-itself")
+		})
+	}
 	// BasicAuthHeader shape: "Basic " + base64(id + ":" + secret)
 	if ba := P.Func(pkgHTTP, "BasicAuthHeader"); c.Anchor("C04.R2", "BasicAuthHeader", ba != nil) {
 		ok := false
